@@ -24,7 +24,17 @@ MIB = 1 << 20
 
 def gen(rng, cid, tier):
     nth = rng.choice([1, 2, 2, 3, 4, 8])
-    mode = rng.choice(["fast", "slow", "gated", "gated", "gated_big"])
+    mode = rng.choice(["fast", "slow", "gated", "gated", "gated_big", "fill_race", "fill_race"])
+    if mode == "fill_race":
+        # a blocked sink and several producers hitting the 1 MiB limit at the same moment with equal-sized lines: the
+        # check "does it still fit" and the reservation must be one atomic step for the bound to hold
+        nth = rng.choice([4, 8])
+        size = rng.choice([1000, 16000, 48000, 100000])
+        per = (5 * MIB // 2) // (nth * size) + 1
+        threads_ = [[{"op": "log", "len": size, "expect_silenced": False} for _ in range(per)] for _ in range(nth)]
+        nlog = per * nth
+        return {"id": cid, "seed": rng.randint(1, 10**6), "threads": threads_, "gates": [{"at_write": 0, "until_attempted": nlog}], "slow_us": 0,
+                "yield_us": 0, "mutex_yield_ppm": rng.choice([0, 20000, 200000]), "mode": mode, "silenced_thread": None, "total_bytes": nlog * size}
     threads_ = []
     silenced_thread = rng.randrange(nth) if nth > 1 and rng.random() < 0.5 else None
     total = 0
